@@ -221,10 +221,16 @@ def _lookup_status(st: "State") -> Dict[str, Any]:
         out["in_function"] = st.dec["self._in_function"]
     return out
 
-# Feasibility constraints on AST shapes that the parser guarantees (verified against the parser
-# by rule C05-R6a): for these node classes at least one of the listed conditions is true.
-SHAPE_CONSTRAINTS = {
+# Feasibility constraints on AST shapes that the parser guarantees.  Each set is applied only when the
+# parser-side rule that justifies it holds on the current tree (see EmitAnalysis.__init__).
+TRY_CONSTRAINTS = {
     "TryStatement": [("node.handler", "node.finalizer")],
+}
+TARGET_CONSTRAINTS = {
+    "AssignmentExpression": [("isinstance(node.left, Identifier)", "isinstance(node.left, MemberExpression)")],
+    "UpdateExpression": [("isinstance(node.argument, Identifier)", "isinstance(node.argument, MemberExpression)")],
+    "ForInStatement": [("isinstance(node.left, VariableDeclaration)", "isinstance(node.left, Identifier)", "isinstance(node.left, MemberExpression)")],
+    "ForOfStatement": [("isinstance(node.left, VariableDeclaration)", "isinstance(node.left, Identifier)", "isinstance(node.left, MemberExpression)")],
 }
 
 
@@ -251,6 +257,16 @@ class EmitAnalysis:
         self.branches: Dict[str, List[BranchResult]] = {}
         self.assumed: List[str] = []
         self.max_paths = 20000
+        from .rules import frontend
+
+        self.constraints: Dict[str, List[Tuple[str, ...]]] = {}
+        self.constraint_basis: List[str] = []
+        if frontend.try_shape_ok(ctx):
+            self.constraints.update(TRY_CONSTRAINTS)
+            self.constraint_basis.append("parser refuses try without catch and finally")
+        if frontend.reference_targets_ok(ctx):
+            self.constraints.update(TARGET_CONSTRAINTS)
+            self.constraint_basis.append("parser validates assignment/update/for-in/of targets (C13-R1)")
 
     # ----------------------------------------------------------- entry points
     def node_chain(self, fname: str) -> Tuple[Func, List[Tuple[List[str], List[ast.stmt], int]], Optional[List[ast.stmt]]]:
@@ -310,8 +326,13 @@ class EmitAnalysis:
         for e in ends:
             ok = True
             for c in classes:
-                for alts in SHAPE_CONSTRAINTS.get(c, []):
+                for alts in self.constraints.get(c, []):
                     if all(e.dec.get(a) is False for a in alts):
+                        ok = False
+                    # isinstance chains: an alternative that was never tested on this path counts as undecided,
+                    # unless every tested alternative is False and the path fell into the chain's else
+                    tested = [a for a in alts if a in e.dec]
+                    if tested and all(e.dec[a] is False for a in tested) and len(tested) == len(alts):
                         ok = False
             if ok:
                 out.append(e)
@@ -761,6 +782,12 @@ class EmitAnalysis:
             if isinstance(v, CTX):
                 v.pushed = True
                 st.ctx_stack.append(v)
+            return UNK
+        if fn == "self.try_stack.append":
+            st.events.append(("try-push", e.lineno))
+            return UNK
+        if fn == "self.try_stack.pop":
+            st.events.append(("try-pop", e.lineno))
             return UNK
         if fn == "self.loop_stack.pop":
             if st.ctx_stack:
